@@ -150,11 +150,40 @@ func runC31(c *Ctx) {
 				}
 			}
 		}
+		viaTrue := false
+		if f.verdict == nil {
+			// `if !verdict { return false }; …; return true`: the verdict is the bool local
+			// that starts as true and is only ever set to false; the final `return true`
+			// must then sit where the verdict is known to be true
+			if v := c31FindVerdict(info, run); v != nil {
+				if n := len(run.Body.List); n > 0 {
+					walkStack(run.Body, func(nd ast.Node, stack []ast.Node) bool {
+						if nd != ast.Node(run.Body.List[n-1]) {
+							return true
+						}
+						if rs, ok := nd.(*ast.ReturnStmt); ok && len(rs.Results) == 1 {
+							if b, isC := constBool(info, rs.Results[0]); isC && b {
+								for _, ft := range c31Facts(info, stack) {
+									if id, ok := unparen(ft.E).(*ast.Ident); ok && info.ObjectOf(id) == v && ft.True {
+										f.verdict, viaTrue = v, true
+									}
+								}
+							}
+						}
+						return false
+					})
+				}
+			}
+		}
 		if f.verdict == nil || f.plan == nil {
 			c.Viol("R31b", "runTest:final-return", run.Pos(), "runTest does not end with `return <bool verdict variable>` (or has no *UnitTestPlan parameter): the accumulated verdict is not what the caller receives")
 			return
 		}
-		c.OK("R31b", "runTest:final-return", run.Body.List[len(run.Body.List)-1].Pos(), "runTest ends with `return %s`", f.verdict.Name())
+		if viaTrue {
+			c.OK("R31b", "runTest:final-return", run.Body.List[len(run.Body.List)-1].Pos(), "runTest ends with `return true` where %s is known true (it returned false before otherwise)", f.verdict.Name())
+		} else {
+			c.OK("R31b", "runTest:final-return", run.Body.List[len(run.Body.List)-1].Pos(), "runTest ends with `return %s`", f.verdict.Name())
+		}
 		fns = append(fns, f)
 		seen[run] = true
 	}
@@ -445,7 +474,7 @@ func (c *Ctx) c31Pairing(pk *packages.Package, f *c31Fn) {
 			}
 		}
 		nRep++
-		facts := factsOf(guardsAt(info, stack))
+		facts := c31Facts(info, stack)
 		// innermost statement list
 		var list []ast.Stmt
 		for i := len(stack) - 2; i >= 0 && list == nil; i-- {
@@ -560,6 +589,14 @@ func (c *Ctx) c31Pairing(pk *packages.Package, f *c31Fn) {
 				if !c.c31IsVerdictLHS(info, f, l) {
 					continue
 				}
+				if x.Tok == token.DEFINE && i < len(x.Rhs) && !f.isPtr {
+					// `verdict := true` declares the verdict (checked under verdict-init)
+					if id, isId := unparen(l).(*ast.Ident); isId && info.Defs[id] == f.verdict {
+						if v, isC := constBool(info, x.Rhs[i]); isC && v {
+							continue
+						}
+					}
+				}
 				nAsg++
 				ok := false
 				if x.Tok == token.ASSIGN && i < len(x.Rhs) {
@@ -605,7 +642,7 @@ func (c *Ctx) c31Pairing(pk *packages.Package, f *c31Fn) {
 		})
 		c.Check(initTrue, "R31b", fn+":verdict-init", f.fd.Pos(), "the verdict starts as true (a plan without assertions passes)")
 		good, nRet := true, 0
-		ast.Inspect(f.fd.Body, func(n ast.Node) bool {
+		walkStack(f.fd.Body, func(n ast.Node, stack []ast.Node) bool {
 			if _, ok := n.(*ast.FuncLit); ok {
 				return false
 			}
@@ -619,6 +656,14 @@ func (c *Ctx) c31Pairing(pk *packages.Package, f *c31Fn) {
 			}
 			if v, isC := constBool(info, rs.Results[0]); isC && !v {
 				return true
+			}
+			// `return true` where the verdict is known to be true is `return verdict`
+			if v, isC := constBool(info, rs.Results[0]); isC && v {
+				for _, ft := range c31Facts(info, stack) {
+					if id, ok := unparen(ft.E).(*ast.Ident); ok && info.ObjectOf(id) == f.verdict && ft.True {
+						return true
+					}
+				}
 			}
 			good = false
 			c.Viol("R31b", fn+":return-value", rs.Pos(), "%s returns %s instead of the verdict or false", fn, c.src(rs.Results[0]))
@@ -655,7 +700,7 @@ func (c *Ctx) c31Polarity(pk *packages.Package, f *c31Fn) {
 			return true
 		}
 		n++
-		facts := factsOf(guardsAt(info, stack))
+		facts := c31Facts(info, stack)
 		verdictOK, why, label := "", "", ""
 		var at ast.Expr
 		for i := len(facts) - 1; i >= 0 && verdictOK == ""; i-- {
@@ -672,6 +717,22 @@ func (c *Ctx) c31Polarity(pk *packages.Package, f *c31Fn) {
 			at = e
 			switch x := e.(type) {
 			case *ast.BinaryExpr:
+				// len(b) > 0, len(b) >= 1, 0 < len(b) … say what len(b) != 0 says
+				if lx, op, k, isCmp := cmpNorm(info, e); isCmp {
+					if _, isLen := isBuiltinCall(info, lx, "len"); isLen {
+						p := intPred(op, k)
+						holds := func(v int64) bool { return p(v) == ft.True }
+						switch {
+						case samePredOnRange(holds, func(v int64) bool { return v != 0 }, 0, 4):
+							verdictOK, why = "ok", "`"+c.src(e)+"` says the values differ"
+						case samePredOnRange(holds, func(v int64) bool { return v == 0 }, 0, 4):
+							verdictOK, why = "bad", "`"+c.src(e)+"` says actual and expected are EQUAL"
+						}
+						if verdictOK != "" {
+							break
+						}
+					}
+				}
 				if x.Op != token.EQL && x.Op != token.NEQ {
 					verdictOK, why = "undecided", "relational comparison "+c.src(e)
 					break
@@ -762,6 +823,7 @@ func (c *Ctx) c31Streams(pk *packages.Package, f *c31Fn) {
 	procT := mx(c31Lang) + ".Process"
 	// locals holding data of a stream of the function's fork
 	stream := map[types.Object]string{}
+	sdefs := c29Defs(info, f.fd.Body)
 	ast.Inspect(f.fd.Body, func(n ast.Node) bool {
 		as, ok := n.(*ast.AssignStmt)
 		if !ok || len(as.Rhs) != 1 {
@@ -775,10 +837,14 @@ func (c *Ctx) c31Streams(pk *packages.Package, f *c31Fn) {
 		if !ok {
 			return true
 		}
+		recv := unparen(se.X)
+		if d, ok := sdefs.single(info, recv); ok && d.idx < 0 { // out := fork.Stdout; out.ReadAll()
+			recv = unparen(d.rhs)
+		}
 		which := ""
-		if isField(info, se.X, procT, "Stdout") {
+		if isField(info, recv, procT, "Stdout") {
 			which = "Stdout"
-		} else if isField(info, se.X, procT, "Stderr") {
+		} else if isField(info, recv, procT, "Stderr") {
 			which = "Stderr"
 		}
 		if which == "" {
@@ -945,7 +1011,7 @@ func (c *Ctx) c31Shapes(pk *packages.Package, f *c31Fn, declOf map[types.Object]
 			if nPass > 1 {
 				key += "#" + itoa(nPass)
 			}
-			facts := factsOf(guardsAt(info, stack))
+			facts := c31Facts(info, stack)
 			for _, ft := range facts {
 				if b, ok := unparen(ft.E).(*ast.BinaryExpr); ok && (b.Op == token.NEQ) == ft.True && (b.Op == token.NEQ || b.Op == token.EQL) {
 					if types.Identical(info.TypeOf(b.X), errT) || types.Identical(info.TypeOf(b.Y), errT) {
@@ -965,12 +1031,46 @@ func (c *Ctx) c31Shapes(pk *packages.Package, f *c31Fn, declOf map[types.Object]
 						}
 					}
 				}
-				if cc == nil || len(cc.List) == 0 {
+				var caseTypes []ast.Expr
+				if cc != nil {
+					caseTypes = cc.List
+				} else if len(stack) >= 2 {
+					// `switch v.(type) { case <shapes>: default: return FAILED }; return PASSED`:
+					// the return is reached only through the typed arms of an earlier type
+					// switch of the same block whose default arm leaves the function
+					if blk, ok := stack[len(stack)-2].(*ast.BlockStmt); ok {
+						for _, st := range blk.List {
+							if st.Pos() >= rs.Pos() {
+								break
+							}
+							ts, ok := st.(*ast.TypeSwitchStmt)
+							if !ok {
+								continue
+							}
+							var types_ []ast.Expr
+							dfltLeaves := false
+							for _, cl := range ts.Body.List {
+								k := cl.(*ast.CaseClause)
+								if k.List == nil {
+									dfltLeaves = c31Leaves(info, k.Body)
+									continue
+								}
+								if !c31Leaves(info, k.Body) { // break / fall out of the switch reaches the return
+									types_ = append(types_, k.List...)
+								}
+							}
+							if dfltLeaves && len(types_) > 0 {
+								caseTypes = types_
+							}
+						}
+					}
+				}
+				if len(caseTypes) == 0 {
 					c.Viol("R31e", key, rs.Pos(), "%s returns PASSED outside a type-switch case (or in its default arm): values of any shape satisfy the %s assertion", fn, s.shape)
 					return true
 				}
 				var bad []string
-				for _, te := range cc.List {
+				for _, te := range caseTypes {
 					t := info.TypeOf(te)
 					if t == nil {
 						bad = append(bad, c.src(te))
@@ -990,7 +1090,7 @@ func (c *Ctx) c31Shapes(pk *packages.Package, f *c31Fn, declOf map[types.Object]
 					}
 				}
 				if len(bad) == 0 {
-					c.OK("R31e", key, rs.Pos(), "PASSED only for %d %s types", len(cc.List), s.shape)
+					c.OK("R31e", key, rs.Pos(), "PASSED only for %d %s types", len(caseTypes), s.shape)
 				} else {
 					c.Viol("R31e", key, rs.Pos(), "%s (the %s assertion) returns PASSED for %v, which %s not %s types: output of the wrong shape satisfies the assertion", fn, s.shape, bad, map[bool]string{true: "is", false: "are"}[len(bad) == 1], s.shape)
 				}
@@ -1062,6 +1162,7 @@ func (c *Ctx) c31Run(pk *packages.Package, run *ast.FuncDecl) {
 	}
 	c.OK("R31b", "Run:return", fd.Pos(), "UnitTests.Run returns its verdict variable %s", v.Name())
 	nAnd := 0
+	runDefs := c29Defs(info, fd.Body)
 	walkStack(fd.Body, func(n ast.Node, stack []ast.Node) bool {
 		as, ok := n.(*ast.AssignStmt)
 		if !ok {
@@ -1073,26 +1174,48 @@ func (c *Ctx) c31Run(pk *packages.Package, run *ast.FuncDecl) {
 				continue
 			}
 			rhs := unparen(as.Rhs[i])
+			var call *ast.CallExpr
 			if b, isC := constBool(info, rhs); isC {
 				if b && as.Tok != token.DEFINE {
 					c.Viol("R31b", "Run:verdict-reset", as.Pos(), "UnitTests.Run sets its verdict back to true: earlier failed tests are forgotten")
 				}
-				continue
+				// `if !runTest(…) { verdict = false }` is verdict = runTest(…) && verdict
+				if !b && as.Tok == token.ASSIGN {
+					for _, ft := range c31Facts(info, stack) {
+						e := unparen(ft.E)
+						if d, ok := runDefs.single(info, e); ok && d.idx < 0 {
+							e = unparen(d.rhs)
+						}
+						if cl, ok := e.(*ast.CallExpr); ok && callee(info, cl) == runObj && !ft.True {
+							call = cl
+						}
+					}
+				}
+				if call == nil {
+					continue
+				}
 			}
 			// conjunction containing the verdict itself and a runTest call
 			hasSelf, hasRun, onlyAnd := false, false, true
-			var call *ast.CallExpr
-			for _, cj := range conjuncts(rhs) {
-				if cid, ok := unparen(cj).(*ast.Ident); ok && info.ObjectOf(cid) == v {
-					hasSelf = true
-					continue
+			if call != nil {
+				hasSelf, hasRun = true, true
+			} else {
+				for _, cj := range conjuncts(rhs) {
+					if cid, ok := unparen(cj).(*ast.Ident); ok && info.ObjectOf(cid) == v {
+						hasSelf = true
+						continue
+					}
+					cje := unparen(cj)
+					if d, ok := runDefs.single(info, cje); ok && d.idx < 0 { // ok := runTest(…); verdict = verdict && ok
+						cje = unparen(d.rhs)
+					}
+					if cl, ok := cje.(*ast.CallExpr); ok && callee(info, cl) == runObj {
+						hasRun = true
+						call = cl
+						continue
+					}
+					onlyAnd = false
 				}
-				if cl, ok := unparen(cj).(*ast.CallExpr); ok && callee(info, cl) == runObj {
-					hasRun = true
-					call = cl
-					continue
-				}
-				onlyAnd = false
 			}
 			nAnd++
 			if hasSelf && hasRun && onlyAnd {
@@ -1170,7 +1293,7 @@ func (c *Ctx) c31Run(pk *packages.Package, run *ast.FuncDecl) {
 			return true
 		}
 		if b, isC := constBool(info, as.Rhs[0]); isC && !b {
-			for _, ft := range factsOf(guardsAt(info, stack)) {
+			for _, ft := range c31Facts(info, stack) {
 				if eid, ok := unparen(ft.E).(*ast.Ident); ok && !ft.True {
 					// the flag is set to true next to the runTest call
 					set := false
@@ -1207,7 +1330,7 @@ func (c *Ctx) c31Run(pk *packages.Package, run *ast.FuncDecl) {
 		}
 		val, isC := constInt(info, as.Rhs[0])
 		known := 0 // +1 verdict true, -1 false
-		for _, ft := range factsOf(guardsAt(info, stack)) {
+		for _, ft := range c31Facts(info, stack) {
 			if id, ok := unparen(ft.E).(*ast.Ident); ok && info.ObjectOf(id) == v {
 				if ft.True {
 					known = 1
@@ -1257,4 +1380,100 @@ func (c *Ctx) c31Run(pk *packages.Package, run *ast.FuncDecl) {
 		}
 	})
 	c.MinCount("R31b", "calls of UnitTests.Run from builtins/core/test", n, 1)
+}
+
+// c31FindVerdict: the only bool local of fd that is initialised to the constant
+// true and assigned the constant false somewhere (nil when there is none or
+// several).
+func c31FindVerdict(info *types.Info, fd *ast.FuncDecl) types.Object {
+	initTrue := map[types.Object]bool{}
+	setFalse := map[types.Object]bool{}
+	ast.Inspect(fd.Body, func(n ast.Node) bool {
+		switch x := n.(type) {
+		case *ast.ValueSpec:
+			for i, nm := range x.Names {
+				if i < len(x.Values) {
+					if v, isC := constBool(info, x.Values[i]); isC && v {
+						initTrue[info.Defs[nm]] = true
+					}
+				}
+			}
+		case *ast.AssignStmt:
+			for i, l := range x.Lhs {
+				id, ok := l.(*ast.Ident)
+				if !ok || i >= len(x.Rhs) {
+					continue
+				}
+				v, isC := constBool(info, x.Rhs[i])
+				if !isC {
+					continue
+				}
+				if x.Tok == token.DEFINE && v {
+					initTrue[info.Defs[id]] = true
+				}
+				if x.Tok == token.ASSIGN && !v {
+					setFalse[info.ObjectOf(id)] = true
+				}
+			}
+		}
+		return true
+	})
+	var found types.Object
+	for o := range initTrue {
+		if o == nil || !setFalse[o] {
+			continue
+		}
+		if v, ok := o.(*types.Var); !ok || !types.Identical(v.Type(), types.Typ[types.Bool]) {
+			continue
+		}
+		if found != nil {
+			return nil
+		}
+		found = o
+	}
+	return found
+}
+
+// c31Facts: factsOf(guardsAt(…)) extended with the arms of tagged switches —
+// `switch x { case K: … }` is `if x == K { … }` and its default arm is the
+// negation of every case. The synthesised comparisons carry no type
+// information themselves; their operands are the original (typed) nodes.
+func c31Facts(info *types.Info, stack []ast.Node) []Fact {
+	var out []Fact
+	for _, g := range guardsAt(info, stack) {
+		switch {
+		case g.Cond != nil:
+			out = append(out, factsOf([]Guard{g})...)
+		case g.Tag != nil && g.Neg:
+			for _, k := range g.Cases {
+				out = append(out, Fact{&ast.BinaryExpr{X: g.Tag, Op: token.EQL, Y: k}, false})
+			}
+		case g.Tag != nil && len(g.Cases) == 1:
+			out = append(out, Fact{&ast.BinaryExpr{X: g.Tag, Op: token.EQL, Y: g.Cases[0]}, true})
+		}
+	}
+	return out
+}
+
+// c31Leaves: the statement list ends by leaving the function (return / panic);
+// a `break` only leaves the switch and does not count.
+func c31Leaves(info *types.Info, list []ast.Stmt) bool {
+	if len(list) == 0 {
+		return false
+	}
+	switch s := list[len(list)-1].(type) {
+	case *ast.ReturnStmt:
+		return true
+	case *ast.ExprStmt:
+		if call, ok := s.X.(*ast.CallExpr); ok {
+			if id, ok := call.Fun.(*ast.Ident); ok && id.Name == "panic" {
+				if _, isB := info.Uses[id].(*types.Builtin); isB {
+					return true
+				}
+			}
+		}
+	case *ast.BlockStmt:
+		return c31Leaves(info, s.List)
+	}
+	return false
 }
